@@ -63,3 +63,41 @@ func (c *T) f(res chan int, out chan int) (int, error) {
 		t.Errorf("a scheduling point sits between the scheduler's pick and the operation it picked:\n%s", tail[:k+20])
 	}
 }
+
+// A receive whose value is assigned gets a WaitRecv in front and stays as it is.
+func TestValueReceiveInAssignment(t *testing.T) {
+	dir := t.TempDir()
+	rel := "internal/pkg/groups/fillcache.go"
+	src := `package groups
+
+type R struct{ V int }
+
+func f(done chan R, c2 chan int) (int, bool) {
+	r := <-done
+	v, ok := <-c2
+	var w int
+	w = <-c2
+	return r.V + v + w, ok
+}
+`
+	p := filepath.Join(dir, rel)
+	os.MkdirAll(filepath.Dir(p), 0o755)
+	if err := os.WriteFile(p, []byte(src), 0o644); err != nil {
+		t.Fatal(err)
+	}
+	st := &stats{}
+	out, changed := rewriteFile(p, rel, st)
+	if !changed {
+		t.Fatal("file was not rewritten")
+	}
+	got := string(out)
+	if _, err := parser.ParseFile(token.NewFileSet(), "x.go", got, 0); err != nil {
+		t.Fatalf("rewritten file does not parse: %v\n%s", err, got)
+	}
+	flat := strings.Join(strings.Fields(got), " ")
+	for _, want := range []string{"verifvchan.WaitRecv(done) r := <-done", "verifvchan.WaitRecv(c2) v, ok := <-c2", "verifvchan.WaitRecv(c2) w = <-c2"} {
+		if !strings.Contains(flat, want) {
+			t.Errorf("rewritten file lacks %q:\n%s", want, got)
+		}
+	}
+}
